@@ -375,9 +375,9 @@ def run(ctx):
         for N in ((5,) if ctx.quick else (5, 7)):
             times = [0.25 * i for i in range(N)]
             for safe in ((False,) if ctx.quick else (False, True)):
-                cfgs.append(dict(spec=sp, times=times, mode='single', safe=safe, bound=2 if ctx.quick else 3))
-            cfgs.append(dict(spec=sp, times=[0.25 * i for i in range(N + 2)], mode='lineage', safe=False, bound=1 if ctx.quick else 2,
-                             cap=4000 if ctx.quick else 40000))
+                cfgs.append(dict(spec=sp, times=times, mode='single', safe=safe, bound=3))
+            cfgs.append(dict(spec=sp, times=[0.25 * i for i in range(N + 2)], mode='lineage', safe=False, bound=2,
+                             cap=12000 if ctx.quick else 60000))
     pmap(run_config, cfgs, ctx, nshards=len(cfgs))
     ctx.bounds = dict(splitter_cases=len(items), lineage_configs=len(cfgs), cost_bound=max(c_['bound'] for c_ in cfgs))
     ctx.rule = ('E1: (i) PerfectBinomialVolumeSplitter, GeneralVolumeSplitter and LineageVolumeSplitter in every per-species mode combination x '
